@@ -43,15 +43,38 @@ Commands ==
     \cup {<<"rise", a>> : a \in Refs} \cup {<<"recession", a>> : a \in Refs}
 ReadOnly == {<<"simulate-rise", "none">>, <<"simulate-recession", "none">>, <<"pestfiles-curves", "none">>}
 
-(* can the step complete on this disk?  (otherwise it fails somewhere and  *)
-(* rolls back) *)
-CanComplete(d, c) ==
-    CASE c[1] = "classify"      -> d.cls = NoVal
-      [] c[1] = "set-zeta-grid" -> d.grid = NoVal
-      [] c[1] = "set-curvature" -> d.curv = NoVal
-      [] c[1] = "rise"          -> d.cls # NoVal /\ d.grid # NoVal /\ d.rise = NoCurve
-      [] c[1] = "recession"     -> d.cls # NoVal /\ d.grid # NoVal /\ d.rec = NoCurve
-      [] OTHER -> FALSE
+(* What happens when command c is run on disk d.  The code checks nothing   *)
+(* up front; it dies where it first misses something, in this order:       *)
+(*   "ok"            completes                                             *)
+(*   "integrity"     its rows exist already (singleton / primary key):     *)
+(*                   sqlite3.IntegrityError at the first conflicting write *)
+(*   "no_grid"       rise / recession before set-zeta-grid: ValueError     *)
+(*                   "Discrete water level interval not yet set"           *)
+(*   "no_intervals"  rise / recession before classify: ValueError          *)
+(*                   "empty series list"                                   *)
+(*   "no_curvature"  simulate recession before set-curvature: ValueError   *)
+(*                   "Site curvature must be set to simulate recession"    *)
+(*   "no_curve"      simulate without the master curve: ValueError (the    *)
+(*                   empty query result cannot be unpacked)                *)
+(* `pestfiles curves` always completes (it writes a file with however many *)
+(* observations there are, possibly none).                                 *)
+Outcome(d, c) ==
+    CASE c[1] = "classify"      -> IF d.cls = NoVal THEN "ok" ELSE "integrity"
+      [] c[1] = "set-zeta-grid" -> IF d.grid = NoVal THEN "ok" ELSE "integrity"
+      [] c[1] = "set-curvature" -> IF d.curv = NoVal THEN "ok" ELSE "integrity"
+      [] c[1] = "rise"          -> IF d.grid = NoVal THEN "no_grid"
+                                   ELSE IF d.cls = NoVal THEN "no_intervals"
+                                   ELSE IF d.rise # NoCurve THEN "integrity" ELSE "ok"
+      [] c[1] = "recession"     -> IF d.grid = NoVal THEN "no_grid"
+                                   ELSE IF d.cls = NoVal THEN "no_intervals"
+                                   ELSE IF d.rec # NoCurve THEN "integrity" ELSE "ok"
+      [] c[1] = "simulate-rise" -> IF d.rise = NoCurve THEN "no_curve" ELSE "ok"
+      [] c[1] = "simulate-recession" -> IF d.curv = NoVal THEN "no_curvature"
+                                        ELSE IF d.rec = NoCurve THEN "no_curve" ELSE "ok"
+      [] c[1] = "pestfiles-curves" -> "ok"
+      [] OTHER -> "unknown"
+
+CanComplete(d, c) == Outcome(d, c) = "ok"
 
 (* what the disk becomes when the step commits: a function of what it reads *)
 Effect(d, c) ==
@@ -61,11 +84,7 @@ Effect(d, c) ==
       [] c[1] = "rise"          -> [d EXCEPT !.rise = [ref |-> c[2], cls |-> d.cls, grid |-> d.grid]]
       [] c[1] = "recession"     -> [d EXCEPT !.rec = [ref |-> c[2], cls |-> d.cls, grid |-> d.grid]]
 
-CanRead(d, c) ==
-    CASE c[1] = "simulate-rise"      -> d.rise # NoCurve
-      [] c[1] = "simulate-recession" -> d.rec # NoCurve /\ d.curv # NoVal
-      [] c[1] = "pestfiles-curves"   -> d.rise # NoCurve /\ d.rec # NoCurve
-      [] OTHER -> FALSE
+CanRead(d, c) == Outcome(d, c) = "ok"
 
 Init == disk = Empty /\ txn = NoTxn /\ last = "loaded"
 
@@ -110,9 +129,15 @@ Read(c) ==
     /\ last' = "read"
     /\ UNCHANGED <<disk, txn>>
 
+(* a read-only command whose inputs are missing: fails, nothing written *)
+ReadFails(c) ==
+    /\ Idle /\ ~CanRead(disk, c)
+    /\ last' = "refused"
+    /\ UNCHANGED <<disk, txn>>
+
 Next ==
     \/ \E c \in Commands : Begin(c) \/ Doomed(c)
-    \/ \E c \in ReadOnly : Read(c)
+    \/ \E c \in ReadOnly : Read(c) \/ ReadFails(c)
     \/ Write \/ Commit \/ Fail \/ Kill
 Spec == Init /\ [][Next]_vars /\ WF_vars(Write) /\ WF_vars(Commit)
 
